@@ -107,6 +107,7 @@ CHECKS = {
             "design_ref": "DESIGN.md §4 C04",
         },
         "runs": [conc("HarnessC04Quick", ["c04-end", "c04-config-rejected"]), conc("HarnessC04NonBlocking", ["c04-end"]),
+                 {"entry": M + "/sourcewrap.HarnessC04Wrapped", "pkgs": SW, "must_reach": ["c04-wrapped-end"], "instrument": [M, M + "/sourcewrap"], "validate": 0},
                  conc("HarnessC04Thorough", ["c04-end"], ["thorough"])],
         "bounds": {"quick": "1 watching source, 2 updates (blocking and plain), reader with 2 reads; all schedules", "thorough": "3 updates"},
         "outside": "more updates/sources; callback queue overflow (64) is not reached",
@@ -143,8 +144,10 @@ CHECKS = {
             "note": "Blank.SetSource is covered in C20's Blank harness (it calls this method under a mutex)",
             "design_ref": "DESIGN.md §4 C07",
         },
-        "runs": [conc("HarnessC07Quick", ["c07-end"]), conc("HarnessC07Second", ["c07-end"])],
-        "bounds": {"quick": "1 blocking report + canceller goroutine (+1 plain report); all schedules", "thorough": "same"},
+        "runs": [conc("HarnessC07Quick", ["c07-end"]), conc("HarnessC07Second", ["c07-end"]),
+                 {"entry": M + "/sourcewrap.HarnessC04Wrapped", "pkgs": SW, "must_reach": ["c04-wrapped-end"], "instrument": [M, M + "/sourcewrap"], "validate": 0},
+                 {"entry": M + "/sourcewrap.HarnessC20BlankContexts", "pkgs": SW, "must_reach": ["c20-blank-ctx-end", "c20-blank-late-end"], "instrument": [M, M + "/sourcewrap"], "validate": 0}],
+        "bounds": {"quick": "1 blocking report + canceller goroutine (+1 plain report); 2 blocking reports of arbitrary validity through a transforming source; Blank.SetSource with its own context, also after Done; all schedules", "thorough": "same"},
         "outside": "several concurrent blocking reporters",
         "assumptions": CONC_ASSUME,
     },
@@ -214,6 +217,7 @@ CHECKS = {
             {"entry": M + "/transform.HarnessC10SetSlice", "pkgs": TFP, "must_reach": ["c10-setslice-end"]},
             {"entry": M + "/transform.HarnessC10Flatten", "pkgs": TFP, "must_reach": ["c10-flatten-end"]},
             {"entry": M + "/transform.HarnessC10Chains", "pkgs": TFP, "must_reach": ["c10-chains-end"]},
+            {"entry": M + "/transform.HarnessC10Embedded", "pkgs": TFP, "must_reach": ["c10-embedded-end"]},
         ],
     },
     "C14": {
@@ -300,6 +304,8 @@ CHECKS = {
             {"entry": M + "/sourcewrap.HarnessC20TransformWatch", "pkgs": SW, "must_reach": ["c20-watch-end"], "instrument": [M, M + "/sourcewrap"], "validate": 0},
             {"entry": M + "/sourcewrap.HarnessC20Decoder", "pkgs": SW, "must_reach": ["c20-decoder-end"]},
             {"entry": M + "/sourcewrap.HarnessC20Blank", "pkgs": SW, "must_reach": ["c20-blank-end", "c20-blank-done"], "instrument": [M, M + "/sourcewrap"], "validate": 0},
+            {"entry": M + "/sourcewrap.HarnessC20BlankContexts", "pkgs": SW, "must_reach": ["c20-blank-ctx-end", "c20-blank-late-end"], "instrument": [M, M + "/sourcewrap"], "validate": 0},
+            {"entry": M + "/sourcewrap.HarnessC20Slices", "pkgs": SW + ["github.com/fatih/structtag"], "must_reach": ["c20-slices-end"], "instrument": [M, M + "/sourcewrap"], "validate": 0},
         ],
         "bounds": {"quick": "1 wrapped source, 3 updates, all int64 values; Blank: 3 operations", "thorough": "same"},
         "outside": "other mangler lists on the watch path; transforming decoders (C10/C14)",
